@@ -375,6 +375,47 @@ func checkC19(c *Ctx) {
 	}
 	c.Check(rangesEvents, "R19.4", "config.DetectDeviceConfigChanges/range-events", c.P.Pos(worker.Pos()), "the loop is `for event := range watcher.Events` (ends when the watcher is closed)", "the event loop does not range over watcher.Events")
 
+	// R19.8 the stream ends (the deferred close runs) only where it may: when the watcher could not be created, or after the
+	// event loop has ended.  A return in between - e.g. on the first directory that cannot be watched - ends the stream while
+	// the application runs: no later modification is announced and the consumer sees a closed channel.
+	{
+		var eventsRecv *ssa.BasicBlock
+		var createFail *ssa.BasicBlock
+		for _, b := range worker.Blocks {
+			for _, in := range b.Instrs {
+				if u, ok := in.(*ssa.UnOp); ok && u.Op.String() == "<-" && strings.HasSuffix(vw.Term(u.X).String(), ".Events") && inCycle(b) {
+					eventsRecv = b
+				}
+			}
+			if ifi, ok := b.Instrs[len(b.Instrs)-1].(*ssa.If); ok {
+				if bo, ok := ifi.Cond.(*ssa.BinOp); ok && bo.Op.String() == "!=" {
+					if ex, ok := bo.X.(*ssa.Extract); ok && ex.Index == 1 {
+						if call, ok := ex.Tuple.(*ssa.Call); ok && call.Call.StaticCallee() != nil && call.Call.StaticCallee().Name() == "NewWatcher" {
+							createFail = b.Succs[0]
+						}
+					}
+				}
+			}
+		}
+		bad8 := ""
+		n8 := 0
+		for _, b := range worker.Blocks {
+			if _, ok := b.Instrs[len(b.Instrs)-1].(*ssa.Return); !ok || b == worker.Recover {
+				continue
+			}
+			n8++
+			okRet := createFail != nil && createFail.Dominates(b) || eventsRecv != nil && eventsRecv.Dominates(b)
+			if !okRet {
+				bad8 = fmt.Sprintf("the watcher goroutine can return (and close the notification stream) at %s before its event loop was ever entered and without the watcher having failed to be created", c.P.Pos(b.Instrs[len(b.Instrs)-1].Pos()))
+			}
+		}
+		if n8 == 0 {
+			c.Undec("R19.8", "config.DetectDeviceConfigChanges/stream-ends-only-after-the-event-loop", c.P.Pos(worker.Pos()), "no return found in the watcher goroutine")
+		} else {
+			c.Check(bad8 == "", "R19.8", "config.DetectDeviceConfigChanges/stream-ends-only-after-the-event-loop", c.P.Pos(worker.Pos()), fmt.Sprintf("%d return(s): after the watcher failed to be created, or after the event loop", n8), bad8)
+		}
+	}
+
 	// R19.6 the loader only reads: a directory the loader (re)creates after the watcher was set up is loaded but never watched
 	for _, name := range []string{"LoadDeviceConfigs", "loadDirectory"} {
 		lf := c.P.Func(pkgConfig, "", name)
